@@ -860,6 +860,7 @@ func main() {
 	c.Rule = "generated pipelines of 1-4 scripted steps (normal, warning, error, fatal result, requirements that never stabilise / stabilise at round n; each step adds and removes desired names) run by the real XR reconciler after an initial composition and a perturbation of the observed state (missing / terminating / foreign-controlled / uncontrolled referenced resources, injected observe-time read error); P&T: template lists that lose, rename and add named templates. Oracle over the sim write log: failure => no write on composed kinds and unchanged spec.resourceRefs; success => deleted == observed-by-this-XR minus final desired (reference fold of the scripted steps), never a delete on a desired name. distinct = the generated case; non-trivial = a resource existed before the reconcile and the failing step was not the first (pipeline), or a template with an observed resource was lost (P&T)."
 	c.Rule += " " + "P&T revisions with the mode unset or with a stray pipeline listed under mode Resources; every write of the collection phase fails once with each outcome (success is judged by a Synced=True status write)."
 	c.Rule += " " + "Observed resources whose only field manager is the client-side one (upgrade pending); namespaced resources of one kind and one name in different namespaces."
+	c.Rule += " " + "Resources renamed by re-emitting the observed body; two steady-state reconciles after every success (no composed resource deleted or created)."
 	c.Assumptions = []string{"sim implements the apiserver rules of DESIGN.md 2.2", "functions are scripted gRPC servers; the requirement-round counter is per reconcile"}
 	c.Floor = 100
 	n := c.N(1500, 30000)
